@@ -175,7 +175,94 @@ std::string run_case(Src& s, CaseInfo& ci)
   for (auto& st : base.strs) g.str_ids.push_back(st.id);
   g.budget = (int) s.range(3, 18);
   g.allow_undef = s.coin(50);
-  base.cond = gen_bool(s, g, (int) s.range(1, 4));
+  if (s.coin(40))
+  {
+    // shortcut-focused shape: the same string referenced in several ways (at a
+    // constant, bare, counted, in a range ...) joined by and / or in any order -
+    // the uses that set and clear the fixed-offset / single-match shortcuts
+    auto lit = [&]() { return gen_int_lit(s); };
+    auto piece = [&]() {
+      Expr e;
+      e.ty = TB;
+      e.sidx = (int) s.range(0, base.strs.size() - 1);
+      switch (s.weighted({30, 30, 12, 10, 10, 8}))
+      {
+      case 0:
+        e.k = Expr::FOUND;
+        break;
+      case 1:
+        e.k = Expr::FOUND_AT;
+        e.ch = {lit()};
+        break;
+      case 2:
+      {
+        e.k = Expr::FOUND_IN;
+        Expr a = lit(), b = lit();
+        if (a.ival > b.ival)
+          std::swap(a, b);
+        e.ch = {a, b};
+        break;
+      }
+      case 3:
+      {
+        Expr c;
+        c.k = Expr::COUNT;
+        c.ty = TI;
+        c.sidx = e.sidx;
+        e.k = Expr::CMP;
+        e.name = s.coin(50) ? ">=" : "==";
+        e.ch = {c, mk_int((int64_t) s.range(0, 3))};
+        e.sidx = -1;
+        break;
+      }
+      case 4:
+      {
+        Expr c;
+        c.k = Expr::OFFSET;
+        c.ty = TI;
+        c.sidx = e.sidx;
+        if (s.coin(50))
+          c.ch = {mk_int((int64_t) s.range(1, 3))};
+        e.k = Expr::CMP;
+        e.name = "==";
+        e.ch = {c, lit()};
+        e.sidx = -1;
+        break;
+      }
+      default:
+        e.k = Expr::OF;
+        e.q = (int) s.range(0, 2);
+        e.sidx = -1;
+        for (size_t i = 0; i < base.strs.size(); i++) e.set.push_back((int) i);
+        e.set_text = "them";
+        e.of_form = (int) s.weighted({50, 0, 50});
+        if (e.of_form == 2)
+          e.ch = {lit()};
+      }
+      if (s.coin(12))
+      {
+        Expr n;
+        n.k = Expr::NOT;
+        n.ty = TB;
+        n.ch = {e};
+        return n;
+      }
+      return e;
+    };
+    size_t np = s.range(2, 4);
+    Expr acc = piece();
+    for (size_t i = 1; i < np; i++)
+    {
+      Expr j;
+      j.k = s.coin(55) ? Expr::OR : Expr::AND;
+      j.ty = TB;
+      j.ch = {acc, piece()};
+      acc = j;
+    }
+    base.cond = acc;
+  }
+  else
+    base.cond = gen_bool(s, g, (int) s.range(1, 4));
   gs.rules.push_back(base);
   std::vector<std::string> ids = g.str_ids;
   PrintCtx pc{&ids};
